@@ -23,7 +23,11 @@ def prop(pid, title, level, tasks, select, replay=None, trusted=(), explanation=
 def cli_tasks(tier):
     return [Task('cli.argtable', 'contracts.cli:task_argtable'), Task('cli.do_minify', 'contracts.cli:task_do_minify'),
             Task('cli.parse_args', 'contracts.cli:task_parse_args'), Task('cli.main', 'contracts.cli:task_main'),
-            Task('cli.source_modules', 'contracts.cli:task_source_modules')]
+            Task('cli.source_modules', 'contracts.cli:task_source_modules'),
+            Task('standin.cli_scenarios', 'contracts.printer:task_standin', standin='cli scenarios', script='cli_scenarios.py',
+                 args=['--subsets', '12' if tier == 'quick' else '200'],
+                 bound='14 end-to-end scenarios on temporary trees (stdout, --output, in-place tree with sibling and non-python files, unparsable and '
+                       'unreadable modules, not-beneficial and latin-1 sources, invalid combinations) plus every single flag and seeded flag subsets vs the API')]
 
 
 CLI_TRUST = ['argparse action semantics, os.walk / open / os.environ effects as axiomatised in contracts/cli.py:ASSUMPTIONS',
@@ -154,6 +158,34 @@ prop('C12', 'Minifying never runs code taken from the input', 'proof', sink_task
                  'loops of MiniString.to_short/to_long and f_string.Str/Bytes._literals are analysed for one arbitrary iteration with a symbolic '
                  'character of any code point against the lexer DFA (loop invariant: the lexer is inside the literal). The arithmetic sink '
                  'receives only the printed form of literal trees, which prints number/operator/True/False/None tokens only.')
+
+
+def transform_tasks(tier):
+    ts = [Task('transforms.suite.%s' % k, 'contracts.transforms:task_suite_filter', kind=k, module=m) for k, m in
+          (('RemovePass', 'remove_pass'), ('RemoveAsserts', 'remove_asserts'), ('RemoveLiteralStatements', 'remove_literal_statements'),
+           ('RemoveDebug', 'remove_debug'))]
+    ts += [Task('transforms.can_remove', 'contracts.transforms:task_can_remove'), Task('transforms.remove_object', 'contracts.transforms:task_remove_object'),
+           Task('transforms.posargs', 'contracts.transforms:task_posargs'), Task('transforms.return_none', 'contracts.transforms:task_return_none'),
+           Task('transforms.return_none_fn', 'contracts.transforms:task_return_none_functiondef'), Task('transforms.rls', 'contracts.transforms:task_rls_module'),
+           Task('transforms.combine_import', 'contracts.transforms:task_combine_imports', which='import'),
+           Task('transforms.combine_from', 'contracts.transforms:task_combine_imports', which='from'),
+           Task('transforms.combine_suite', 'contracts.transforms:task_combine_suite'), Task('transforms.exception_brackets', 'contracts.transforms:task_exception_brackets'),
+           Task('transforms.annotations', 'contracts.transforms:task_annotations'), Task('transforms.base', 'contracts.transforms:task_base_routing'),
+           Task('pipeline.minify', 'contracts.pipeline:task_minify')]
+    ts.append(generic_standin('transform sweep', 'transform_sweep.py', [], 'a pool of statement shapes x every single option on/off: only the documented rewrite of the '
+                              'enabled option appears, compared on the tree'))
+    return ts
+
+
+prop('C05', 'Each option performs only its documented rewrite, only where it is valid', 'other', transform_tasks, ['C05/', 'C01/minify/'],
+     replay='props.replay_transforms:replay_transforms',
+     trusted=['recursive visit by contract (structural induction over the tree)', 'tree-level contracts instead of compiled-code bisimulation',
+              'ast.walk / iter_child_nodes / iter_fields enumerate the tree (external)'],
+     explanation='One contract per transformer method, taken from the property sentence: the statement filters of RemovePass/RemoveAsserts/'
+                 'RemoveLiteralStatements/RemoveDebug are compared pointwise (arbitrary statement of an arbitrary-length list) with the documented '
+                 'predicate, including the non-empty rule and the Module exception; can_remove, CombineImports (loop invariant on the pending run), '
+                 'return None, object base, exception brackets (builtin, not redefined, whitelisted, no arguments, directly under raise), annotations '
+                 '(per option, never in dataclass/NamedTuple/TypedDict), posargs; and minify() runs each stage exactly under its own option. Level "other": one open known finding (KF-18: a field declared inside a block of a dataclass body) is outside what the per-node contract can see.')
 
 
 def run_property(pid, tier):
